@@ -262,6 +262,9 @@ class ExprMixin:
         prim = (SInt, SBool, SStr, SDec, SDate, STd)
         if isinstance(a, prim) and isinstance(b, prim) and type(a) is not type(b):
             return z3.BoolVal(False)
+        ident = (SClass, SObj)
+        if (isinstance(a, ident) and isinstance(b, prim + (SSeq, STuple, SSet))) or (isinstance(b, ident) and isinstance(a, prim + (SSeq, STuple, SSet))):
+            return z3.BoolVal(False)
         raise Unsupported(f'is between {a!r} and {b!r}')
 
     def equal(self, fr, a, b, node=None):
